@@ -180,6 +180,13 @@ def _inner_ws_run(name: str) -> bool:
     return False
 
 
+def _big_numeric(name: str) -> bool:
+    """Region of the recorded finding C14/make_frame-limit: a numeric argument name above 1000 (make_frame clamps it
+    to 1000 with a warning; the other two views keep it)"""
+    t = _trim(name)
+    return len(t) >= 4 and all(c in "0123456789" for c in t)
+
+
 def _key(name: str):
     t = _trim(name)
     if len(t) > 0 and all(c in "12" for c in t):
